@@ -295,3 +295,32 @@ contract('Envelope.prepend_header', module=ME, props=['C16'],
                   'self.headers._headers[0] == (name, value)',
                   'forall(range(0, old(len(self.headers._headers))), lambda j: self.headers._headers[j + 1] == old(seq(self.headers._headers))[j])'],
          modifies=['contents(self.headers._headers)'])
+
+# ---- AddReceivedHeader (C16: "a new Received header is placed first"; nothing else of the envelope changes)
+klass('VersionInfo')
+global_object('VERSION', 'VersionInfo')
+klass('StructTime')
+extern('gmtime', params={'secs': 'Any'}, returns='StructTime', ensures=['result != None'])
+extern('strftime', params={'format': 'Any', 't': 'StructTime'}, returns='Str')
+klass('AddReceivedHeader', ['QueuePolicy'], module=MH, fields={'date_format': 'Any'})
+for _m, _grow in (('_build_from_section', '== old(len(parts)) + 1'), ('_build_by_section', '== old(len(parts)) + 1'),
+                  ('_build_with_section', '<= old(len(parts)) + 1'), ('_build_for_section', '== old(len(parts)) + 1')):
+    contract('AddReceivedHeader.' + _m, module=MH, props=['C16'],
+             params={'self': 'AddReceivedHeader', 'envelope': 'Envelope', 'parts': 'List[Str]'},
+             requires=['envelope != None', 'envelope.client != None', 'envelope.recipients != None', 'parts != None',
+                       'is_list(parts)'],
+             # a section only appends to the list it is given: the envelope is read, never written
+             ensures=['len(parts) ' + _grow, 'len(parts) >= old(len(parts))',
+                      'forall(range(0, old(len(parts))), lambda j: parts[j] == old(seq(parts))[j])'],
+             modifies=['contents(parts)'])
+contract('AddReceivedHeader.apply', module=MH, props=['C16'],
+         params={'self': 'AddReceivedHeader', 'envelope': 'Envelope'},
+         requires=['envelope != None', 'envelope.client != None', 'envelope.recipients != None',
+                   'envelope.headers != None', 'envelope.headers._headers != None', 'is_list(envelope.headers._headers)'],
+         # exactly one header is added, it is a Received header, and it is placed first (Envelope.prepend_header);
+         # the frame says that sender, recipients, body and every other header stay as they are
+         ensures=['len(envelope.headers._headers) == old(len(envelope.headers._headers)) + 1',
+                  'envelope.headers._headers[0][0] == "Received"',
+                  'forall(range(0, old(len(envelope.headers._headers))), lambda j: envelope.headers._headers[j + 1] == old(seq(envelope.headers._headers))[j])'],
+         checks=['ncalls("Envelope.prepend_header") == 1', 'same(call_arg("Envelope.prepend_header", 0, 0), envelope)'],
+         modifies=['contents(envelope.headers._headers)', 'fresh'])
